@@ -882,6 +882,10 @@ func (r *poolRig) judgeRequests() {
 		case "all-failing":
 			if q.status != 502 {
 				c.Violate("C05/all-failing-not-502", "", "request %d: every backend fails but the client got %d", q.id, q.status)
+			} else if elapsed < r.tryDuration-r.tryInterval {
+				// "fails with 502 once the duration is spent": giving up is only in order
+				// when one more try_interval would not fit into try_duration any more
+				c.Violate("C05/gave-up-early", fmt.Sprintf("all-failing/policy=%s/pool=%d", r.policy, r.n), "request %d failed with 502 after %s: try_duration is %s and try_interval %s, so further attempts were due (attempts %v)", q.id, elapsed, r.tryDuration, r.tryInterval, attemptHosts(q))
 			}
 			c.Probe("all-failing-502")
 		}
